@@ -173,10 +173,17 @@ class PersistentVector(
         if len(self) != len(other):
             return len(self) < len(other)
 
+        # Elements are ordered as `compare` orders them (nil sorts below everything),
+        # not by the bare `<` operator, which is not defined for nil.
+        from basilisp.lang.runtime import (  # pylint: disable=import-outside-toplevel
+            compare,
+        )
+
         for x, y in zip(self, other):
-            if x < y:
+            c = compare(x, y)
+            if c < 0:
                 return True
-            elif y < x:
+            elif c > 0:
                 return False
         return False
 
